@@ -121,3 +121,40 @@ func VH_C10_FragmentDisjoint() {
 	vc10Check(s, in, f, K, "C10 Fragment(disjoint)")
 	vreach("end")
 }
+
+// C10 on a grid of concrete values (the solver only enumerates the grid here; every value is then computed exactly as
+// the native code computes it): periods that are not binary fractions of a second, one cue starting exactly on the
+// k-th multiple, k = 0..40 / 0..100, of one and a half / three and a half periods. Arithmetic that leaves the integers
+// (a quotient of seconds in float64, say) goes wrong on such values while every symbolic query about it ends unknown.
+func VH_C10_FragmentGrid() {
+	f := []int64{100000000, 700000000, 2400000000, 33366667}[choose(4)]
+	k := vconcrete(nondetInt64(0, int64(vbound("multiples", 40, 100))))
+	half := choose(2)
+	st := k * f
+	en := st + f + f/2 + int64(half)*2*f
+	s := NewSubtitles()
+	sty, reg, inl := &Style{ID: "s"}, &Region{ID: "r"}, &StyleAttributes{WebVTTAlign: "left"}
+	it := &Item{StartAt: time.Duration(st), EndAt: time.Duration(en), Lines: []Line{{VoiceName: "v", Items: []LineItem{{Text: "a"}}}}, Style: sty, Region: reg, InlineStyle: inl, Comments: []string{"c"}, Index: 1}
+	s.Items = append(s.Items, it)
+	in := []vc10Cue{{it, st, en, "a", sty, reg, inl}}
+	vreach("pre")
+	s.Fragment(time.Duration(f))
+	// windows: the cue ends below (k+4)*f; check the multiples around it
+	for _, p := range s.Items {
+		vassert(p.StartAt < p.EndAt, "C10 grid: no empty piece")
+		for m := k; m <= k+4; m++ {
+			vassert(!(int64(p.StartAt) < m*f && m*f < int64(p.EndAt)), "C10 grid: no piece strictly contains a multiple of f")
+		}
+	}
+	want := 2 + 2*half
+	vassert(len(s.Items) == want, "C10 grid: pieces are exactly the consecutive cuts of the original")
+	for i, p := range s.Items {
+		ws, we := st+int64(i)*f, st+int64(i+1)*f
+		if i == want-1 {
+			we = en
+		}
+		vassert(int64(p.StartAt) == ws && int64(p.EndAt) == we, "C10 grid: pieces are exactly the consecutive cuts of the original")
+	}
+	_ = in
+	vreach("end")
+}
